@@ -32,6 +32,7 @@ func init() {
 		Mutant{"unchecked-subtraction", tf, "newFromBalance = overflow.Sub64p(fromBalance, amount)", "newFromBalance = fromBalance - amount", "checked-arith"},
 		Mutant{"approve-mints", tf, "\tled.allowances.Set(allowanceKey(owner, spender), amount)\n", "\tled.allowances.Set(allowanceKey(owner, spender), amount)\n\tled.totalSupply = amount\n", "who-may-write"},
 		Mutant{"transferfrom-other-amount", tf, "if err := led.Transfer(owner, to, amount); err != nil {", "if err := led.Transfer(owner, to, led.balanceOf(owner)); err != nil {", "spend-then-move"},
+		Mutant{"refix-transferfrom-returns-after-spend", tf, "\t\t// Unreachable; abort rather than keep the allowance spent.\n\t\tpanic(err)", "\t\treturn err", "no-fail-after-write gno:examples/gno.land/p/demo/tokens/grc20.(*PrivateLedger).TransferFrom returns"},
 		Mutant{"teller-spender-is-owner", lf, "return ft.Token.ledger.TransferFrom(owner, spender, to, amount)", "return ft.Token.ledger.TransferFrom(owner, owner, to, amount)", "teller-identity"},
 		Mutant{"teller-skips-realm-check", lf, "\tif !rlm.IsCurrent() {\n\t\treturn ErrSpoofedRealm\n\t}\n\tspender := ft.accountFn(0, rlm)", "\tspender := ft.accountFn(0, rlm)", "teller-identity"},
 	)
@@ -44,6 +45,7 @@ type c51Write struct {
 	what   string // "balances", "allowances", "totalSupply", or "call:<method>"
 	node   ast.Node
 	direct bool
+	key    ast.Expr // for tree writes: the key argument, in the anchored function's own variables (nil if unresolved)
 }
 
 func c51(c *engine.Ctx) {
@@ -61,9 +63,15 @@ func c51(c *engine.Ctx) {
 
 	// writers: methods containing a direct write (closed under calls below)
 	writes := map[string][]c51Write{}
+	opFn := map[*engine.Fn]bool{}
 	for _, o := range ops {
 		if fns[o] != nil {
-			writes[o] = c51DirectWrites(fns[o])
+			opFn[fns[o]] = true
+		}
+	}
+	for _, o := range ops {
+		if fns[o] != nil {
+			writes[o] = c51DeepWrites(fns[o], opFn)
 		}
 	}
 	isWriter := map[string]bool{}
@@ -147,9 +155,9 @@ func c51(c *engine.Ctx) {
 
 	// ---- guarded-write
 	ngw := 0
-	suff := map[string][2]string{ // op -> (reader method, compared against)
+	suff := map[string][2]string{ // op -> (reader method, role of the debited account = first parameter)
 		"Transfer":       {"balanceOf", "from"},
-		"Burn":           {"balanceOf", "addr"},
+		"Burn":           {"balanceOf", "holder"},
 		"SpendAllowance": {"allowance", "owner"},
 	}
 	for _, o := range ops {
@@ -158,7 +166,7 @@ func c51(c *engine.Ctx) {
 			continue
 		}
 		info := f.Info()
-		amount := cjParam(f, "amount")
+		amount := c51Last(f)
 		for _, w := range writes[o] {
 			ngw++
 			atoms := cjBoundAtoms(f, w.site, amount)
@@ -171,7 +179,7 @@ func c51(c *engine.Ctx) {
 			// variable read through the reader with the debited account as first argument
 			var bal types.Object
 			for _, s := range f.CallsTo(c51Pkg + ".(PrivateLedger)." + sp[0]) {
-				if len(s.Call.Args) >= 1 && engine.ObjOf(info, s.Call.Args[0]) == cjParam(f, sp[1]) {
+				if len(s.Call.Args) >= 1 && engine.ObjOf(info, s.Call.Args[0]) == paramObj(f, 0) {
 					if objs := cjAssignedFrom(f, s); len(objs) == 1 {
 						bal = objs[0]
 					}
@@ -185,7 +193,7 @@ func c51(c *engine.Ctx) {
 						return
 					}
 					if call, ok := vs.Values[0].(*ast.CallExpr); ok {
-						if s := f.SiteOf(call); s != nil && s.CalleeName() == c51Pkg+".(PrivateLedger)."+sp[0] && len(call.Args) >= 1 && engine.ObjOf(info, call.Args[0]) == cjParam(f, sp[1]) {
+						if s := f.SiteOf(call); s != nil && s.CalleeName() == c51Pkg+".(PrivateLedger)."+sp[0] && len(call.Args) >= 1 && engine.ObjOf(info, call.Args[0]) == paramObj(f, 0) {
 							bal = info.ObjectOf(vs.Names[0])
 						}
 					}
@@ -193,11 +201,15 @@ func c51(c *engine.Ctx) {
 			}
 			ok := false
 			if bal != nil {
-				for _, gt := range f.Graph().Gates(w.site) {
-					if gt.OnTrue {
+				for _, ft := range cjFactsAt(f, w.site) {
+					x, op, y, isCmp := cjCmpFact(ft)
+					if !isCmp || ft.Fn != f {
 						continue
 					}
-					if b, isB := ast.Unparen(gt.Cond).(*ast.BinaryExpr); isB && b.Op == token.LSS && engine.ObjOf(info, b.X) == bal && engine.ObjOf(info, b.Y) == amount {
+					if op == token.LEQ { // amount <= bal
+						x, y, op = y, x, token.GEQ
+					}
+					if op == token.GEQ && engine.ObjOf(info, x) == bal && engine.ObjOf(info, y) == amount {
 						ok = true
 					}
 				}
@@ -217,7 +229,7 @@ func c51(c *engine.Ctx) {
 		}
 		info := f.Info()
 		g := f.Graph()
-		amount := cjParam(f, "amount")
+		amount := c51Last(f)
 		// count Add64p(_, amount) / Sub64p(_, amount) feeding balances and supply
 		var supply, bal delta
 		nested := false
@@ -296,7 +308,8 @@ func c51(c *engine.Ctx) {
 					case k == w.what:
 						sites = append(sites, w.site)
 					case strings.HasPrefix(k, "balances:") && w.what == "balances":
-						if call, ok := w.node.(*ast.CallExpr); ok && len(call.Args) >= 1 && engine.Mentions(info, call.Args[0], cjParam(f, k[len("balances:"):])) {
+						idx := map[string]int{"from": 0, "to": 1}[k[len("balances:"):]]
+						if w.key != nil && engine.Mentions(info, w.key, paramObj(f, idx)) {
 							sites = append(sites, w.site)
 						}
 					}
@@ -351,17 +364,40 @@ func c51(c *engine.Ctx) {
 			if !isI64(x) && !isI64(y) {
 				return
 			}
+			if be, isBin := node.(*ast.BinaryExpr); isBin && be.Op == token.SUB && engine.ExprString(x) == "math.MaxInt64" {
+				return // the head-room computation `MaxInt64 - v` (v >= 0) cannot overflow; it is a bound, not a stored amount
+			}
 			nca++
-			// allowed only under an explicit MaxInt64 bound on the same target
+			// allowed only under an explicit MaxInt64 bound on the same target: a fact `y <= B` holds where B is
+			// (a single-definition local holding) overflow.Sub64p(math.MaxInt64, x)
 			ok := false
+			same := func(a, b ast.Expr) bool {
+				if oa, ob := engine.ObjOf(info, a), engine.ObjOf(info, b); oa != nil && oa == ob {
+					if _, isSel := ast.Unparen(a).(*ast.SelectorExpr); !isSel {
+						return true
+					}
+				}
+				return engine.ExprString(a) == engine.ExprString(b)
+			}
 			if s := f.SiteOf(node); s != nil {
-				for _, gt := range f.Graph().Gates(s) {
-					if gt.OnTrue {
+				for _, ft := range cjFactsAt(f, s) {
+					l, op, r, isCmp := cjCmpFact(ft)
+					if !isCmp || ft.Fn != f {
 						continue
 					}
-					t := engine.ExprString(gt.Cond)
-					if b, isB := ast.Unparen(gt.Cond).(*ast.BinaryExpr); isB && b.Op == token.GTR && strings.Contains(t, "math.MaxInt64") && strings.Contains(t, "overflow.Sub64p") &&
-						engine.ExprString(b.X) == engine.ExprString(y) && strings.Contains(engine.ExprString(b.Y), engine.ExprString(x)) {
+					if op == token.GEQ { // B >= y
+						l, r, op = r, l, token.LEQ
+					}
+					if op != token.LEQ || !same(l, y) {
+						continue
+					}
+					bound := ast.Unparen(cjResolveLocal(f, r))
+					if call, isCall := bound.(*ast.CallExpr); isCall && len(call.Args) == 2 {
+						if engine.ExprString(call.Fun) == "overflow.Sub64p" && engine.ExprString(call.Args[0]) == "math.MaxInt64" && same(call.Args[1], x) {
+							ok = true
+						}
+					}
+					if be, isBin := bound.(*ast.BinaryExpr); isBin && be.Op == token.SUB && engine.ExprString(be.X) == "math.MaxInt64" && same(be.Y, x) {
 						ok = true
 					}
 				}
@@ -378,17 +414,20 @@ func c51(c *engine.Ctx) {
 		"balances":    {"Transfer", "Mint", "Burn"},
 		"allowances":  {"SpendAllowance", "Approve"},
 	}
-	got := map[string]map[string]bool{"totalSupply": {}, "balances": {}, "allowances": {}}
+	refs := map[string][]engine.Ref{}
 	for _, f := range p.Funcs() {
 		for _, w := range c51DirectWrites(f) {
-			name := f.Root().Name
-			got[w.what][name[strings.LastIndex(name, ".")+1:]] = true
+			refs[w.what] = append(refs[w.what], engine.Ref{Fn: f})
 		}
 	}
-	// value-receiver copies / address-taking of the ledger trees would bypass the table
+	// a private helper all of whose callers are allowed writers is not a new writer
 	for what, allowed := range tables {
-		g := cjKeys(got[what])
-		c.Check("who-may-write", what, token.NoPos, len(engine.SetDiff(g, allowed)) == 0 && len(g) == len(allowed), "writers: "+join(g)+"; allowed: "+join(allowed))
+		var full []string
+		for _, a := range allowed {
+			full = append(full, L+a)
+		}
+		bad := p.UnexpectedCallers(refs[what], full)
+		c.Check("who-may-write", what, token.NoPos, len(bad) == 0 && len(refs[what]) > 0, "unexpected writers: "+join(bad)+"; allowed: "+join(allowed))
 	}
 	c.Floor("who-may-write", len(tables), 3)
 
@@ -409,7 +448,7 @@ func c51(c *engine.Ctx) {
 				return ox != nil && ox == oy
 			}
 			ok = len(a) == 3 && len(b) == 3 && same(a[0], b[0]) && same(a[2], b[2]) &&
-				engine.ObjOf(info, a[0]) == cjParam(f, "owner") && engine.ObjOf(info, a[1]) == cjParam(f, "spender") && engine.ObjOf(info, a[2]) == cjParam(f, "amount") && engine.ObjOf(info, b[1]) == cjParam(f, "to")
+				engine.ObjOf(info, a[0]) == paramObj(f, 0) && engine.ObjOf(info, a[1]) == paramObj(f, 1) && engine.ObjOf(info, a[2]) == paramObj(f, 3) && engine.ObjOf(info, b[1]) == paramObj(f, 2)
 			why = "Transfer(owner, to, amount) must move exactly the (owner, amount) whose allowance SpendAllowance(owner, spender, amount) spent"
 			if ok {
 				r := g.CheckedGuard(sp[0], tr[0])
@@ -522,4 +561,73 @@ func c51DirectWrites(f *engine.Fn) []c51Write {
 		}
 	})
 	return out
+}
+
+// c51Last returns the last parameter (the amount of every ledger operation).
+func c51Last(f *engine.Fn) types.Object {
+	var last types.Object
+	for i := 0; i < 8; i++ {
+		if po := paramObj(f, i); po != nil {
+			last = po
+		}
+	}
+	return last
+}
+
+// c51DeepWrites lists the ledger writes of f including those performed by private helpers it calls
+// (but not those of other ledger operations, which are treated as calls that may fail). The site is
+// the statement of f through which the write happens; key is the tree key in f's own variables.
+func c51DeepWrites(f *engine.Fn, ops map[*engine.Fn]bool) []c51Write {
+	kind := func(fn *engine.Fn, n ast.Node) string {
+		switch x := n.(type) {
+		case *ast.CallExpr:
+			ft := engine.ExprString(x.Fun)
+			for _, tree := range []string{"balances", "allowances"} {
+				if strings.HasSuffix(ft, "."+tree+".Set") || strings.HasSuffix(ft, "."+tree+".Remove") {
+					return tree
+				}
+			}
+		case *ast.AssignStmt:
+			for _, l := range x.Lhs {
+				if se, ok := ast.Unparen(l).(*ast.SelectorExpr); ok && se.Sel.Name == "totalSupply" {
+					return "totalSupply"
+				}
+			}
+		case *ast.IncDecStmt:
+			if se, ok := ast.Unparen(x.X).(*ast.SelectorExpr); ok && se.Sel.Name == "totalSupply" {
+				return "totalSupply"
+			}
+		}
+		return ""
+	}
+	var out []c51Write
+	for _, d := range f.DeepFind(2, func(fn *engine.Fn, n ast.Node) bool { return kind(fn, n) != "" }) {
+		through := false
+		for _, h := range d.Chain {
+			if ops[h] {
+				through = true
+			}
+		}
+		if through {
+			continue
+		}
+		w := c51Write{site: d.Outer, what: kind(d.Inner.Fn, d.Inner.Node), node: d.Outer.Node, direct: true}
+		if call, ok := d.Inner.Node.(*ast.CallExpr); ok && len(call.Args) >= 1 {
+			if e, in := cjChainArg(f, d, c51StripStringConv(call.Args[0])); in == f {
+				w.key = e
+			}
+		}
+		out = append(out, w)
+	}
+	return out
+}
+
+// c51StripStringConv removes a string(x) conversion (address -> string keys).
+func c51StripStringConv(e ast.Expr) ast.Expr {
+	if call, ok := ast.Unparen(e).(*ast.CallExpr); ok && len(call.Args) == 1 {
+		if id, ok := call.Fun.(*ast.Ident); ok && id.Name == "string" {
+			return call.Args[0]
+		}
+	}
+	return e
 }
